@@ -441,6 +441,12 @@ pub fn run(tier: Tier) -> ! {
     for n in odd {
         cfgs.push(("labels".into(), Cfg { modes: vec![CMode { name: n.to_string(), pats: vec![CPat::new("a\"b", 0), CPat::new("[\"\\\\]+", 1), CPat::new("\\u{22}x", 2).with_la(false, "\"")], transitions: vec![] }, CMode { name: "plain".into(), pats: vec![CPat::new("\\\\", 0), CPat::new("[{}|<>]", 1), CPat::new("\\n|\\t", 3)], transitions: vec![] }] }));
     }
+    // every way of writing quotes and backslashes in a pattern, at the start, in the middle and at
+    // the end of the class text shown in a label
+    let tricky = ["\\\"", "\\\"[^\\\"]*\\\"", "a\\\"", "\\\\\\\"", "[\\\"]", "[^\\\"\\\\]", "\\\\", "a\\\\", "\\'", "\\x22", "\\x5C", "[\\x22-\\x5c]", "\\n\\\"", "\\{\\}", "\\|<>", "\\[\\]", "[\\]\\[]"];
+    for (i, t) in tricky.iter().enumerate() {
+        cfgs.push(("labels".into(), Cfg::single(vec![CPat::new(t, i), CPat::new("x", 100).with_la(i % 2 == 0, t)])));
+    }
     // dots in mode names (and in the prefix, see below)
     cfgs.push(("names".into(), Cfg { modes: vec![CMode { name: "STRING.ESCAPE".into(), pats: vec![CPat::new("ab", 1)], transitions: vec![] }, CMode { name: "STRING".into(), pats: vec![CPat::new("x", 2)], transitions: vec![] }, CMode { name: "a.b.c".into(), pats: vec![CPat::new("y+", 3)], transitions: vec![] }, CMode { name: ".hidden".into(), pats: vec![CPat::new("z", 4)], transitions: vec![] }] }));
     cfgs.push(("labels".into(), Cfg { modes: vec![CMode { name: "N".repeat(200), pats: vec![CPat::new("a", 0)], transitions: vec![] }] }));
